@@ -422,14 +422,14 @@ func isDangerousProcPath(path string) bool {
 }
 
 func resolveTraceePath(pid int, base string, p string) string {
-	p = normalizeProcMagicPath(pid, p)
+	// no lexical cleaning here: ".." after a symlink means the parent of the link's target,
+	// so the name is taken apart component by component while links are resolved
 	if !filepath.IsAbs(p) {
 		if base == "" {
 			base = getProcCwd(pid)
 		}
-		p = filepath.Join(base, p)
+		p = base + "/" + p
 	}
-	p = filepath.Clean(p)
 
 	for range maxSymlinkDepth {
 		next, changed := resolveTraceePathOnce(pid, p)
@@ -438,7 +438,7 @@ func resolveTraceePath(pid int, base string, p string) string {
 		}
 		p = next
 	}
-	return p
+	return filepath.Clean(p)
 }
 
 func resolveTraceePathOnce(pid int, p string) (string, bool) {
@@ -461,6 +461,10 @@ func resolveTraceePathOnce(pid int, p string) (string, bool) {
 		}
 
 		candidate := filepath.Join(cur, part)
+		if cur == "/proc" {
+			// /proc/self and /proc/thread-self mean the tracee, not the tracer
+			candidate = normalizeProcMagicPath(pid, candidate)
+		}
 		lstatPath := filepath.Join(fmt.Sprintf("/proc/%d/root", pid), candidate)
 		fi, err := os.Lstat(lstatPath)
 		if err != nil || fi.Mode()&os.ModeSymlink == 0 {
@@ -474,15 +478,12 @@ func resolveTraceePathOnce(pid int, p string) (string, bool) {
 			continue
 		}
 		if !filepath.IsAbs(target) {
-			target = filepath.Join(filepath.Dir(candidate), target)
+			target = filepath.Dir(candidate) + "/" + target
 		}
-		// a relative target may climb into /proc/self as well: normalize once the target is absolute
-		target = normalizeProcMagicPath(pid, target)
-
 		if i+1 < len(rest) {
-			target = filepath.Join(target, filepath.Join(rest[i+1:]...))
+			target = target + "/" + strings.Join(rest[i+1:], "/")
 		}
-		return filepath.Clean(target), true
+		return target, true
 	}
 	return filepath.Clean(cur), false
 }
